@@ -30,6 +30,7 @@ type c02Case struct {
 	Algo     int          `json:"algo"`
 	NilParam bool         `json:"nil_param"`
 	Skew     uint64       `json:"skew,omitempty"` // generation does not use the window: the code must not depend on it
+	Via      int          `json:"via,omitempty"`  // explicit parameters routed through an exported default pointer (see viaDefault)
 }
 
 // zones 5..7 observe daylight saving time (tz database embedded through time/tzdata): in the hour
@@ -122,6 +123,11 @@ func checkC02(c c02Case) verdict {
 	}
 	nt := nearBoundary || period != 30 || c.Nsec != 0 || c.Zone != 0 || hasMono || period > uint64(c.Unix)
 	supported := digits >= 1 && digits <= 10 && algo >= 0 && algo <= 2
+	param, restore := viaDefault(c.Via, param)
+	defer restore()
+	if c.Via != 0 && !c.NilParam {
+		labels = append(labels, "via-exported-default")
+	}
 	got, err := otp.GenerateTOTP(secret, t, param)
 	if !supported {
 		labels = append(labels, "unsupported")
@@ -227,6 +233,9 @@ func genC02(t *rapid.T) c02Case {
 	}
 	c.Zone = rapid.IntRange(0, len(zones)-1).Draw(t, "zone")
 	c.Mono = rapid.Bool().Draw(t, "mono")
+	if !c.NilParam && rapid.IntRange(0, 7).Draw(t, "viaQ") == 0 {
+		c.Via = rapid.IntRange(1, 4).Draw(t, "via")
+	}
 	if !c.NilParam && rapid.IntRange(0, 2).Draw(t, "skewQ") == 0 {
 		c.Skew = uint64(rapid.IntRange(1, 10).Draw(t, "skew")) // an admissible window: generation must not look at it
 	}
